@@ -33,6 +33,10 @@ def gen(rng, n, tier):
         if rng.random() < 0.15:      # tracking of missed values switched off (integer histograms divided afterwards: C06-m8)
             hd = sx.rec(h); hd["keep"] = "F"; hd["missed"] = [0 for _ in hd["missed"]]
             h = [[k, v] for k, v in hd.items()]
+        zero_neg = rng.random() < 0.05
+        if zero_neg:      # nothing in the bins (but something missed): a negative factor must be refused all the same
+            hd = sx.rec(h); hd["freq"] = [0 for _ in hd["freq"]]; hd["err2"] = [0 for _ in hd["err2"]]
+            h = [[k, v] for k, v in hd.items()]
         ops = []
         for _ in range(rng.choice([1, 1, 2, 3, 5])):
             r = rng.random()
@@ -46,7 +50,7 @@ def gen(rng, n, tier):
                 if not exact and "float" in kind:
                     import numpy as np
                     c = Fr(float(np.float32(float(c)))) if kind == "np.float32" else Fr(float(c))
-                if rng.random() < 0.08: c = -c
+                if rng.random() < 0.08 or (zero_neg and len(ops) == 0): c = -c
                 if rng.random() < 0.6:
                     form = rng.choice(["copy", "copy", "rev", "inplace"])
                     if form == "rev" and kind.startswith("np.") and rng.random() < 0.85: form = "copy"
